@@ -63,22 +63,37 @@ type caller struct {
 type queue struct {
 	mu      sync.Mutex
 	callers []*caller
+	// dead is set (under mu) when the queue became empty and was unlinked from
+	// lock.queues. A dead queue is never used again: enqueue refuses it and the
+	// caller fetches (or creates) the key's current queue instead. Without the
+	// flag a Lock that loaded the pointer just before the unlink would enqueue
+	// into an orphaned queue and hold the key concurrently with the holder of
+	// the freshly created one.
+	dead bool
+	// unlink removes the queue from the owning lock's map; called under mu.
+	unlink func(q *queue)
 }
 
-func newQueue() *queue {
-	return &queue{}
+func newQueue(unlink func(q *queue)) *queue {
+	return &queue{unlink: unlink}
 }
 
 // enqueue appends a new caller. If it lands at the head (queue was empty),
 // its ready channel is pre-closed so it can proceed immediately.
-func (q *queue) enqueue(c *caller) {
+// It returns false if the queue has already been unlinked (see queue.dead);
+// the caller must then retry with the key's current queue.
+func (q *queue) enqueue(c *caller) bool {
 	q.mu.Lock()
 	defer q.mu.Unlock()
+	if q.dead {
+		return false
+	}
 	wasEmpty := len(q.callers) == 0
 	q.callers = append(q.callers, c)
 	if wasEmpty {
 		close(c.ready)
 	}
+	return true
 }
 
 // remove deletes the caller with the given id from the queue. If the removed
@@ -101,6 +116,15 @@ func (q *queue) remove(id string) bool {
 			// Wake the next waiter.
 			close(q.callers[0].ready)
 		}
+		if len(q.callers) == 0 {
+			// Nobody holds or waits for this key any more: drop the per-key
+			// state so that the map does not grow with every key ever locked.
+			q.dead = true
+			q.callers = nil
+			if q.unlink != nil {
+				q.unlink(q)
+			}
+		}
 		return true
 	}
 	return false
@@ -110,7 +134,9 @@ func (l *lock) getQueue(key string) *queue {
 	if v, ok := l.queues.Load(key); ok {
 		return v.(*queue)
 	}
-	actual, _ := l.queues.LoadOrStore(key, newQueue())
+	actual, _ := l.queues.LoadOrStore(key, newQueue(func(q *queue) {
+		l.queues.CompareAndDelete(key, q)
+	}))
 	return actual.(*queue)
 }
 
@@ -123,8 +149,12 @@ func (l *lock) Lock(ctx context.Context, key string, ttl time.Duration) (lockID 
 		done:  make(chan struct{}),
 	}
 
+	// A queue is unlinked as soon as it becomes empty; if that happens between
+	// getQueue and enqueue, enqueue refuses and we take the key's current queue.
 	q := l.getQueue(key)
-	q.enqueue(c)
+	for !q.enqueue(c) {
+		q = l.getQueue(key)
+	}
 
 	// Wait until either we become the head of the queue (ready closed),
 	// or the caller's context is done.
